@@ -84,14 +84,13 @@ theorem run_uses_composed (inp : Input) (r : Result) (h : run inp = .ok r) :
   · rename_i r' hr
     cases h
     unfold runE at hr
-    simp only [bind, Except.bind, pure, Except.pure, orThrow] at hr
+    simp only [bind, Except.bind, pure, Except.pure, orThrow, throw, throwThe, MonadExcept.throw, MonadExceptOf.throw] at hr
     repeat' split at hr
     all_goals first
       | (cases hr; done)
-      | skip
-    all_goals trace_state
-    all_goals sorry
+      | (cases hr; exact ⟨rfl, rfl, rfl, rfl, by simp only; omega⟩)
   · cases h
+  · split at h <;> cases h
 
 /-- `Transformation::transform_cell` for an integer matrix `M` with `det M ≠ 0` (the model
 `transformCellPos` / `transformCellMap`, lattice points from the Smith normal form):
